@@ -55,6 +55,9 @@ pub fn gen_compile<W: Write>(w: &mut W, tier: &str, seed: u64) {
         emit(w, &[format!("10 {}", l)]);
         emit(w, &[l.to_string()]);
         emit(w, &[format!("10 {}", l), "20 PRINT 1".into(), format!("30 {}", l), "RUN".into()]);
+        // the boundary line numbers
+        emit(w, &[format!("0 {}", l), "5 FOR I=1 TO 2:NEXT".into(), format!("65529 {}", l), "GOTO 0".into()]);
+        emit(w, &["0 REM".into(), "7 IF A THEN 0 ELSE 65529".into(), format!("65528 {}", l), "65529 GOTO 0:GOSUB 65529:ON X GOTO 0,65529:RESTORE 0".into()]);
     }
     let n = if tier == "thorough" { 50_000 } else { 2_000 };
     for i in 0..n {
